@@ -447,7 +447,7 @@ static void case_nested_integration(Rng& rng, uint64_t index)
 	StreamCapture cap;
 	double res = Integrate_MC(fo, oreg, O.ncall, std::string(MC[O.method]));
 	auto det = [&] { return J().i("outer_evaluations", (long long) n).i("inner_integrations", (long long) inner_runs).i("points_changed_by_the_inner_integration", (long long) changed).i("coordinates_outside_afterwards", (long long) outside).d("result", res); };
-	require("sample-point-is-unchanged-by-an-integration-run-inside-the-integrand", changed == 0 && outside == 0 && inner_runs > 0, det);
+	require("sample-point-unchanged-by-an-integration-inside-the-integrand", changed == 0 && outside == 0 && inner_runs > 0, det);
 	require("nested-integration-returns-a-number", std::isfinite(res), det);
 }
 
